@@ -65,7 +65,7 @@ class RecordingPush:
         self.fail = None  # optional callable raising
 
     def push_snapshot(self, snapshot):
-        self.pushed.append(PushRec(snapshot, threading.get_ident(), self.rig.current_event()))
+        self.pushed.append(PushRec(snapshot, threading.get_ident(), self.rig.current_event() if self.rig else None))
         if self.fail is not None:
             self.fail(snapshot)
 
